@@ -501,8 +501,7 @@ class CFG:
             names(n.info.get("exc"), uses)
             names(n.info.get("cause"), uses)
         elif k == "handler":
-            if n.info.get("name"):
-                defs.add(n.info["name"])
+            pass  # the `as name` binding is made on the exception edge, before the handler node
         elif k == "with_enter":
             for it in n.info["items"]:
                 names(it.context_expr, uses)
